@@ -11,3 +11,13 @@ CLAIMS = {
         "note": "Trusted: multiaddr classification (manet.IsPublicAddr); the scripted transport stands in for real dials. Under-blocking is not asserted.",
     },
 }
+
+CLAIMS["C09"] = {
+    "technique": "model-based stateful property testing (rapid state machine, differential against a reference model and between the two stores) on virtual time",
+    "design_ref": "DESIGN.md section 3, C09",
+    "text": "Generated histories of every address-book operation, clock advances, GC runs and close/reopen are applied to the in-memory book, the datastore book "
+            "(cache on/off, purge and lookahead GC) and a continuous-time reference model inside one synctest bubble; Addrs/GetPeerRecord/ConsumePeerRecord results must "
+            "agree exactly, PeersWithAddrs within one GC period and exactly at the end. Shrunk failures found on the pinned tree (six, all repaired by fix: commits) are replayed as witnesses. "
+            "Exploration: does not prove absence of further divergences.",
+    "note": "Clock steps are whole seconds; batches never name one address twice; per-peer caps disabled in the exact-oracle configuration; the datastore double applies each write atomically (crash = close/reopen).",
+}
